@@ -397,6 +397,20 @@ Proof.
     + exact IH.
 Qed.
 
+(* re-deriving the windows from the size they were derived from changes nothing (the truncfail exit) *)
+Lemma initmmap_id : forall ps fsz ss, SlotsInv ps fsz ss -> initmmap ps fsz ss = ss.
+Proof.
+  intros ps fsz ss HS. induction HS as [| s tl Hs0 Hf Ht IH]; simpl; [reflexivity |].
+  f_equal; [| exact IH]. unfold initmmap_slot. destruct Hs0 as [_ [_ [_ [_ [Hl _]]]]]. rewrite <- Hl. rewrite Z.eqb_refl. reflexivity.
+Qed.
+
+Lemma set_slots_id : forall st, set_slots st (slots st) = st.
+Proof. intros st. destruct st; reflexivity. Qed.
+
+Lemma truncfail_id : forall st, SlotsInv (psize st) (fsize st) (slots st) ->
+  set_slots st (initmmap (psize st) (fsize st) (slots st)) = st.
+Proof. intros st HS. rewrite initmmap_id by exact HS. apply set_slots_id. Qed.
+
 (* growing or shrinking to an aligned size: the only state change _exfile_truncate_lw makes *)
 Definition resized (st : exf) (n : Z) : exf :=
   mkExf (ftrunc (file st) n) n (maxoff st) (psize st) (initmmap (psize st) n (slots st)) (pol st).
@@ -410,32 +424,35 @@ Proof.
   - eapply initmmap_inv. exact H6.
 Qed.
 
-Lemma truncate_lw_eq : forall st size, Inv st -> 0 <= size <= LIM ->
-  truncate_lw st size =
+Lemma truncate_lw_eq : forall ok st size, Inv st -> 0 <= size <= LIM ->
+  truncate_lw ok st size =
     let n := rup size (psize st) in
     if fsize st =? n then (0, st)
     else if (fsize st <? n) && negb (maxoff st =? 0) && (n >? maxoff st) then (EXF_E_MAXOFF, st)
+    else if (fsize st <? n) && negb (ok n) then (EXF_E_IO, st)
     else (0, resized st n).
 Proof.
-  intros st size HI Hs. pose proof (inv_ps st HI) as HP. pose proof (PsOk_pos _ HP). rewrite LIM_val in Hs.
+  intros ok st size HI Hs. pose proof (inv_ps st HI) as HP. pose proof (PsOk_pos _ HP). rewrite LIM_val in Hs.
   unfold truncate_lw. rewrite uw_small by lia. rewrite roundup_ps by (auto; lia). cbv zeta.
   destruct (fsize st =? rup size (psize st)); [reflexivity |].
   destruct (fsize st <? rup size (psize st)); simpl; [| reflexivity].
-  destruct (negb (maxoff st =? 0) && (rup size (psize st) >? maxoff st)); reflexivity.
+  destruct (negb (maxoff st =? 0) && (rup size (psize st) >? maxoff st)); [reflexivity |].
+  destruct (ok (rup size (psize st))); simpl; [reflexivity |].
+  rewrite truncfail_id by (exact (inv_slots st HI)). reflexivity.
 Qed.
 
 Lemma abs_resized : forall st n, abs (resized st n) = spec_resize (abs st) n (pol st).
 Proof. reflexivity. Qed.
 
-Lemma truncate_lw_spec : forall st size rc st', Inv st -> 0 <= size <= LIM ->
-  truncate_lw st size = (rc, st') ->
-  spec_truncate (psize st) (abs st) size = (rc, abs st') /\ Inv st' /\ psize st' = psize st /\
+Lemma truncate_lw_spec : forall ok st size rc st', Inv st -> 0 <= size <= LIM ->
+  truncate_lw ok st size = (rc, st') ->
+  spec_truncate (psize st) ok (abs st) size = (rc, abs st') /\ Inv st' /\ psize st' = psize st /\
   (rc = 0 -> fsize st' = rup size (psize st)).
 Proof.
-  intros st size rc st' HI Hs E. rewrite truncate_lw_eq in E by assumption. cbv zeta in E.
+  intros ok st size rc st' HI Hs E. rewrite truncate_lw_eq in E by assumption. cbv zeta in E.
   pose proof (inv_ps st HI) as HP. pose proof (PsOk_pos _ HP) as Hps.
   pose proof (inv_fs st HI) as [Hf1 Hf2]. pose proof (inv_file st HI) as Hfl. pose proof (inv_mo st HI) as [Hm1 [Hm2 Hm3]].
-  unfold spec_truncate. simpl. rewrite Hfl.
+  unfold spec_truncate, spec_grow. simpl. rewrite Hfl.
   set (n := rup size (psize st)) in *.
   assert (Hn : 0 <= n <= LIM).
   { split. - apply rup_nonneg; lia. - apply rup_le_aligned; try lia. apply LIM_mod; auto. }
@@ -444,27 +461,39 @@ Proof.
   - inversion E; subst rc st'. clear E.
     replace (negb (maxoff st =? 0) && (fsize st <? n) && (n >? maxoff st)) with false
       by (destruct (Z.ltb_spec (fsize st) n); [lia | rewrite andb_false_r; reflexivity]).
+    replace (fsize st <? n) with false by (symmetry; apply Z.ltb_ge; lia). simpl.
     split; [| split; [| split]]; auto. unfold spec_resize, abs. simpl. rewrite <- Een, <- Hfl, ftrunc_id. reflexivity.
   - replace (negb (maxoff st =? 0) && (fsize st <? n) && (n >? maxoff st))
       with ((fsize st <? n) && negb (maxoff st =? 0) && (n >? maxoff st))
       by (destruct (fsize st <? n), (negb (maxoff st =? 0)); reflexivity).
     destruct ((fsize st <? n) && negb (maxoff st =? 0) && (n >? maxoff st)) eqn:Emo.
     + inversion E; subst rc st'. split; [| split; [| split]]; auto. intros Hrc. discriminate Hrc.
-    + inversion E; subst rc st'. clear E. split; [| split; [| split]]; auto.
-      apply resized_inv; auto.
-      destruct (Z.ltb_spec (fsize st) n); destruct (Z.eqb_spec (maxoff st) 0); destruct (Z.gtb_spec n (maxoff st));
-        simpl in Emo; try discriminate; lia.
+    + destruct ((fsize st <? n) && negb (ok n)) eqn:Eos.
+      * inversion E; subst rc st'. split; [| split; [| split]]; auto. intros Hrc. discriminate Hrc.
+      * inversion E; subst rc st'. clear E. split; [| split; [| split]]; auto.
+        apply resized_inv; auto.
+        destruct (Z.ltb_spec (fsize st) n); destruct (Z.eqb_spec (maxoff st) 0); destruct (Z.gtb_spec n (maxoff st));
+          simpl in Emo; try discriminate; lia.
 Qed.
 
-Lemma truncate_lw_grow : forall st n, Inv st -> n mod psize st = 0 -> fsize st < n <= LIM ->
-  (maxoff st = 0 \/ n <= maxoff st) -> truncate_lw st n = (0, resized st n).
+Lemma truncate_lw_grow : forall ok st n, Inv st -> n mod psize st = 0 -> fsize st < n <= LIM ->
+  (maxoff st = 0 \/ n <= maxoff st) ->
+  truncate_lw ok st n = if ok n then (0, resized st n) else (EXF_E_IO, st).
 Proof.
-  intros st n HI Hm Hn Hmo. pose proof (inv_fs st HI) as [Hf1 Hf2]. pose proof (PsOk_pos _ (inv_ps st HI)).
+  intros ok st n HI Hm Hn Hmo. pose proof (inv_fs st HI) as [Hf1 Hf2]. pose proof (PsOk_pos _ (inv_ps st HI)).
   rewrite truncate_lw_eq by (auto; lia). cbv zeta. rewrite rup_id by (auto; lia).
   destruct (Z.eqb_spec (fsize st) n); [lia |].
   destruct (Z.ltb_spec (fsize st) n); [| lia].
-  destruct (Z.eqb_spec (maxoff st) 0); simpl; [reflexivity |].
-  destruct (Z.gtb_spec n (maxoff st)); [lia | reflexivity].
+  destruct (Z.eqb_spec (maxoff st) 0); simpl; [destruct (ok n); reflexivity |].
+  destruct (Z.gtb_spec n (maxoff st)); [lia | destruct (ok n); reflexivity].
+Qed.
+
+(* the same size change on the flat array *)
+Lemma spec_grow_grow : forall ok a n p, zlen (a_bytes a) < n ->
+  spec_grow ok a n p = if ok n then (0, spec_resize a n p) else (EXF_E_IO, mkFlat (a_bytes a) (a_maxoff a) p).
+Proof.
+  intros ok a n p Hn. unfold spec_grow. destruct (Z.ltb_spec (zlen (a_bytes a)) n); [| lia].
+  destruct (ok n); reflexivity.
 Qed.
 
 Lemma spec_policy_le : forall ps p nsize csize, PsOk ps -> pol_ok p -> 0 <= nsize <= LIM -> 0 <= csize <= LIM ->
@@ -491,13 +520,13 @@ Definition grow_ok (st : exf) (sz : Z) : Prop :=
 Lemma set_pol_inv : forall st p, Inv st -> pol_ok p -> Inv (set_pol st p).
 Proof. intros st p [H1 H2 H3 H4 H5 H6] Hp. constructor; simpl; auto. Qed.
 
-Lemma ensure_size_lw_spec : forall q st sz rc st', q_mul_ge q = true -> Inv st -> 0 <= sz <= LIM -> grow_ok st sz ->
-  ensure_size_lw q st sz = (rc, st') ->
-  spec_ensure (psize st) (abs st) sz = (rc, abs st') /\ Inv st' /\ psize st' = psize st /\ maxoff st' = maxoff st /\
+Lemma ensure_size_lw_spec : forall q ok st sz rc st', q_mul_ge q = true -> Inv st -> 0 <= sz <= LIM -> grow_ok st sz ->
+  ensure_size_lw q ok st sz = (rc, st') ->
+  spec_ensure (psize st) ok (abs st) sz = (rc, abs st') /\ Inv st' /\ psize st' = psize st /\ maxoff st' = maxoff st /\
   slots st' = initmmap (psize st) (fsize st') (slots st) /\
   (rc = 0 -> sz <= fsize st').
 Proof.
-  intros q st sz rc st' Hq HI Hs [Hr Hg] E.
+  intros q ok st sz rc st' Hq HI Hs [Hr Hg] E.
   pose proof (inv_ps st HI) as HP. pose proof (PsOk_pos _ HP) as Hps.
   pose proof (inv_fs st HI) as [Hf1 Hf2]. pose proof (inv_file st HI) as Hfl.
   pose proof (inv_mo st HI) as [Hm1 [Hm2 Hm3]]. pose proof (inv_pol st HI) as Hpo.
@@ -527,15 +556,27 @@ Proof.
         split; [| intros Hrc; discriminate Hrc]. simpl.
         clear E. pose proof (inv_slots st HI) as HS. induction HS as [| s tl Hs0 Hf Ht IH]; simpl; [reflexivity |].
         f_equal; [| exact IH]. unfold initmmap_slot. destruct Hs0 as [_ [_ [_ [_ [Hl _]]]]]. rewrite <- Hl. rewrite Z.eqb_refl. reflexivity.
-      * rewrite truncate_lw_grow in E by (auto; simpl; lia). inversion E; subst rc st'.
-        split; [reflexivity |]. split; [apply resized_inv; auto; simpl; lia |]. split; [reflexivity |]. split; [reflexivity |].
-        split; [reflexivity | intros; simpl; lia].
+      * rewrite truncate_lw_grow in E by (auto; simpl; lia).
+        rewrite spec_grow_grow by (simpl; lia).
+        destruct (ok (maxoff st)).
+        -- inversion E; subst rc st'.
+           split; [reflexivity |]. split; [apply resized_inv; auto; simpl; lia |]. split; [reflexivity |]. split; [reflexivity |].
+           split; [reflexivity | intros; simpl; lia].
+        -- inversion E; subst rc st'.
+           split; [reflexivity |]. split; [assumption |]. split; [reflexivity |]. split; [reflexivity |].
+           split; [| intros Hrc; discriminate Hrc]. simpl. symmetry. apply initmmap_id. exact (inv_slots st HI).
     + assert (Hnc : maxoff st = 0 \/ nsz <= maxoff st).
       { destruct (Z.eqb_spec (maxoff st) 0); [left; assumption |]. simpl in Eclip. rewrite Z.gtb_ltb in Eclip. apply Z.ltb_ge in Eclip. right; lia. }
       assert (Hnl : nsz <= LIM) by (destruct Hg as [Hg | Hg]; [destruct Hnc; lia | lia]).
-      rewrite truncate_lw_grow in E by (auto; simpl; lia). inversion E; subst rc st'.
-      split; [reflexivity |]. split; [apply resized_inv; auto; simpl; lia |]. split; [reflexivity |]. split; [reflexivity |].
-      split; [reflexivity | intros; simpl; lia].
+      rewrite truncate_lw_grow in E by (auto; simpl; lia).
+      rewrite spec_grow_grow by (simpl; lia).
+      destruct (ok nsz).
+      * inversion E; subst rc st'.
+        split; [reflexivity |]. split; [apply resized_inv; auto; simpl; lia |]. split; [reflexivity |]. split; [reflexivity |].
+        split; [reflexivity | intros; simpl; lia].
+      * inversion E; subst rc st'.
+        split; [reflexivity |]. split; [assumption |]. split; [reflexivity |]. split; [reflexivity |].
+        split; [| intros Hrc; discriminate Hrc]. simpl. symmetry. apply initmmap_id. exact (inv_slots st HI).
 Qed.
 
 (* ---------------------------------------------------------------------------------------------- *)
@@ -821,12 +862,12 @@ Qed.
 Lemma set_fs_inv : forall st f, Inv st -> zlen f = fsize st -> Inv (set_fs st f (slots st)).
 Proof. intros st f [H1 H2 H3 H4 H5 H6] Hf. constructor; simpl; auto. Qed.
 
-Lemma exfile_write_spec : forall q st off data rc sp st', q_mul_ge q = true -> Inv st ->
+Lemma exfile_write_spec : forall q ok st off data rc sp st', q_mul_ge q = true -> Inv st ->
   0 <= off -> off + zlen data <= LIM -> grow_ok st (off + zlen data) ->
-  exfile_write q st off data = (rc, sp, st') ->
-  spec_write (psize st) (abs st) off data = (rc, sp, abs st') /\ Inv st' /\ psize st' = psize st /\ maxoff st' = maxoff st.
+  exfile_write q ok st off data = (rc, sp, st') ->
+  spec_write (psize st) ok (abs st) off data = (rc, sp, abs st') /\ Inv st' /\ psize st' = psize st /\ maxoff st' = maxoff st.
 Proof.
-  intros q st off data rc sp st' Hq HI Hoff Hend Hg E.
+  intros q ok st off data rc sp st' Hq HI Hoff Hend Hg E.
   pose proof (zlen_nonneg data) as Hdn. pose proof LIM_val as EL.
   pose proof (inv_fs st HI) as [Hf1 Hf2]. pose proof (inv_file st HI) as Hfl. pose proof (inv_mo st HI) as [Hm1 _].
   unfold exfile_write in E. rewrite sw_small in E by lia. rewrite uw_small in E by lia.
@@ -835,13 +876,13 @@ Proof.
   destruct (negb (maxoff st =? 0) && (off + zlen data >? maxoff st)).
   { inversion E; subst. auto. }
   (* the size request *)
-  assert (Hens : exists rc1 st1, (if off + zlen data >? fsize st then ensure_size_lw q st (off + zlen data) else (0, st)) = (rc1, st1) /\
-            spec_ensure (psize st) (abs st) (off + zlen data) = (rc1, abs st1) /\ Inv st1 /\ psize st1 = psize st /\ maxoff st1 = maxoff st /\
+  assert (Hens : exists rc1 st1, (if off + zlen data >? fsize st then ensure_size_lw q ok st (off + zlen data) else (0, st)) = (rc1, st1) /\
+            spec_ensure (psize st) ok (abs st) (off + zlen data) = (rc1, abs st1) /\ Inv st1 /\ psize st1 = psize st /\ maxoff st1 = maxoff st /\
             (rc1 = 0 -> off + zlen data <= fsize st1)).
   { destruct (Z.gtb_spec (off + zlen data) (fsize st)) as [Hgt | Hle].
-    - destruct (ensure_size_lw q st (off + zlen data)) as [rc1 st1] eqn:Ee. exists rc1, st1. split; [reflexivity |].
+    - destruct (ensure_size_lw q ok st (off + zlen data)) as [rc1 st1] eqn:Ee. exists rc1, st1. split; [reflexivity |].
       assert (Hrange : 0 <= off + zlen data <= LIM) by lia.
-      destruct (ensure_size_lw_spec q st (off + zlen data) rc1 st1 Hq HI Hrange Hg Ee) as [A [B [C [D [_ F]]]]]. auto.
+      destruct (ensure_size_lw_spec q ok st (off + zlen data) rc1 st1 Hq HI Hrange Hg Ee) as [A [B [C [D [_ F]]]]]. auto.
     - exists 0, st. split; [reflexivity |]. split; [| auto].
       unfold spec_ensure. simpl. rewrite Hfl. destruct (Z.geb_spec (fsize st) (off + zlen data)); [reflexivity | lia]. }
   destruct Hens as [rc1 [st1 [E1 [S1 [I1 [P1 [M1 F1]]]]]]]. rewrite E1 in E. rewrite S1.
@@ -1081,16 +1122,16 @@ Qed.
 Lemma zlen_pread_le : forall f a n, 0 <= n -> zlen (pread f a n) <= n.
 Proof. intros. unfold pread. rewrite zlen_ztake_min by lia. lia. Qed.
 
-Lemma exfile_copy_spec : forall q st off siz noff rc st', FixedQ q -> Inv st ->
+Lemma exfile_copy_spec : forall q ok st off siz noff rc st', FixedQ q -> Inv st ->
   0 <= off -> 0 <= siz -> 0 <= noff -> off + siz <= LIM -> noff + siz <= LIM -> grow_ok st (noff + siz) ->
-  exfile_copy q st off siz noff = (rc, st') ->
-  spec_copy (psize st) (abs st) off siz noff rc (abs st') /\ Inv st' /\ psize st' = psize st /\ maxoff st' = maxoff st.
+  exfile_copy q ok st off siz noff = (rc, st') ->
+  spec_copy (psize st) ok (abs st) off siz noff rc (abs st') /\ Inv st' /\ psize st' = psize st /\ maxoff st' = maxoff st.
 Proof.
-  intros q st off siz noff rc st' [Hq1 [Hq2 Hq3]] HI Hoff Hsiz Hnoff He1 He2 Hg E. pose proof LIM_val as EL.
+  intros q ok st off siz noff rc st' [Hq1 [Hq2 Hq3]] HI Hoff Hsiz Hnoff He1 He2 Hg E. pose proof LIM_val as EL.
   unfold exfile_copy in E. rewrite Hq2, Hq3 in E. rewrite sw_small in E by lia. rewrite !uw_small in E by lia.
-  destruct (ensure_size_lw q st (noff + siz)) as [rc0 st0] eqn:Ee.
+  destruct (ensure_size_lw q ok st (noff + siz)) as [rc0 st0] eqn:Ee.
   assert (Hrange : 0 <= noff + siz <= LIM) by lia.
-  destruct (ensure_size_lw_spec q st (noff + siz) rc0 st0 Hq1 HI Hrange Hg Ee) as [S0 [I0 [P0 [M0 [_ F0]]]]].
+  destruct (ensure_size_lw_spec q ok st (noff + siz) rc0 st0 Hq1 HI Hrange Hg Ee) as [S0 [I0 [P0 [M0 [_ F0]]]]].
   unfold spec_copy. rewrite S0.
   destruct (Z.eqb_spec rc0 0) as [Hz | Hnz]; simpl in E.
   2:{ inversion E; subst rc st'. auto. }
@@ -1144,22 +1185,23 @@ Definition op_ok (st : exf) (o : op) : Prop :=
   | ORemoveMmap _ | ORemap | OSync => True
   end.
 
-Lemma step_refines : forall q st o r st', FixedQ q -> Inv st -> op_ok st o -> step q st o = (r, st') ->
-  spec_step_rel (psize st) (abs st) o r (abs st') /\ Inv st' /\ psize st' = psize st /\ maxoff st' = maxoff st.
+Lemma step_refines : forall q ok st o r st', FixedQ q -> Inv st -> op_ok st o -> step q ok st o = (r, st') ->
+  spec_step_rel (psize st) ok (abs st) o r (abs st') /\ Inv st' /\ psize st' = psize st /\ maxoff st' = maxoff st.
 Proof.
-  intros q st o r st' HQ HI Hok E. pose proof HQ as [Hq1 _]. destruct o; simpl in *.
-  - destruct Hok as [H1 [H2 H3]]. destruct (exfile_write q st off d) as [[rc sp] st1] eqn:Ew. inversion E; subst r st'. simpl.
-    exact (exfile_write_spec q st off d rc sp st1 Hq1 HI H1 H2 H3 Ew).
+  intros q ok st o r st' HQ HI Hok E. pose proof HQ as [Hq1 _]. destruct o; simpl in *.
+  - destruct Hok as [H1 [H2 H3]]. destruct (exfile_write q ok st off d) as [[rc sp] st1] eqn:Ew. inversion E; subst r st'. simpl.
+    exact (exfile_write_spec q ok st off d rc sp st1 Hq1 HI H1 H2 H3 Ew).
   - destruct Hok as [H1 [H2 H3]]. rewrite (exfile_read_spec st off n HI H1 H2 H3) in E. inversion E; subst r st'. simpl. auto.
-  - destruct Hok as [H1 [H2 [H3 [H4 [H5 H6]]]]]. destruct (exfile_copy q st off siz noff) as [rc st1] eqn:Ec. inversion E; subst r st'. simpl.
-    exact (exfile_copy_spec q st off siz noff rc st1 HQ HI H1 H2 H3 H4 H5 H6 Ec).
-  - destruct (truncate_lw st sz) as [rc st1] eqn:Et. inversion E; subst r st'. simpl.
-    destruct (truncate_lw_spec st sz rc st1 HI Hok Et) as [A [B [C D]]]. split; [exact A |]. split; [exact B |]. split; [exact C |].
+  - destruct Hok as [H1 [H2 [H3 [H4 [H5 H6]]]]]. destruct (exfile_copy q ok st off siz noff) as [rc st1] eqn:Ec. inversion E; subst r st'. simpl.
+    exact (exfile_copy_spec q ok st off siz noff rc st1 HQ HI H1 H2 H3 H4 H5 H6 Ec).
+  - destruct (truncate_lw ok st sz) as [rc st1] eqn:Et. inversion E; subst r st'. simpl.
+    destruct (truncate_lw_spec ok st sz rc st1 HI Hok Et) as [A [B [C D]]]. split; [exact A |]. split; [exact B |]. split; [exact C |].
     rewrite truncate_lw_eq in Et by assumption. cbv zeta in Et.
     destruct (fsize st =? rup sz (psize st)); [inversion Et; reflexivity |].
-    destruct ((fsize st <? rup sz (psize st)) && negb (maxoff st =? 0) && (rup sz (psize st) >? maxoff st)); inversion Et; reflexivity.
-  - destruct Hok as [H1 H2]. destruct (ensure_size_lw q st sz) as [rc st1] eqn:Ee. inversion E; subst r st'. simpl.
-    destruct (ensure_size_lw_spec q st sz rc st1 Hq1 HI H1 H2 Ee) as [A [B [C [D _]]]]. auto.
+    destruct ((fsize st <? rup sz (psize st)) && negb (maxoff st =? 0) && (rup sz (psize st) >? maxoff st)); [inversion Et; reflexivity |].
+    destruct ((fsize st <? rup sz (psize st)) && negb (ok (rup sz (psize st)))); inversion Et; reflexivity.
+  - destruct Hok as [H1 H2]. destruct (ensure_size_lw q ok st sz) as [rc st1] eqn:Ee. inversion E; subst r st'. simpl.
+    destruct (ensure_size_lw_spec q ok st sz rc st1 Hq1 HI H1 H2 Ee) as [A [B [C [D _]]]]. auto.
   - destruct Hok as [H1 [H2 H3]]. destruct (add_mmap_lw st off maxlen flags) as [rc st1] eqn:Ea. inversion E; subst r st'. simpl.
     destruct (add_mmap_lw_inv st off maxlen flags rc st1 HI H1 H2 H3 Ea) as [A [B [C D]]]. auto.
   - destruct (remove_mmap_lw st off) as [rc st1] eqn:Er. inversion E; subst r st'. simpl.
@@ -1168,39 +1210,39 @@ Proof.
   - inversion E; subst r st'. auto.
 Qed.
 
-Fixpoint RunOk (q : quirks) (st : exf) (os : list op) : Prop :=
+Fixpoint RunOk (q : quirks) (ok : os_ok) (st : exf) (os : list op) : Prop :=
   match os with
   | [] => True
-  | o :: tl => op_ok st o /\ RunOk q (snd (step q st o)) tl
+  | o :: tl => op_ok st o /\ RunOk q ok (snd (step q ok st o)) tl
   end.
 
-Lemma run_refines : forall q os st rs st', FixedQ q -> Inv st -> RunOk q st os -> run q st os = (rs, st') ->
-  spec_run_rel (psize st) (abs st) os rs (abs st') /\ Inv st' /\ psize st' = psize st /\ maxoff st' = maxoff st.
+Lemma run_refines : forall q ok os st rs st', FixedQ q -> Inv st -> RunOk q ok st os -> run q ok st os = (rs, st') ->
+  spec_run_rel (psize st) ok (abs st) os rs (abs st') /\ Inv st' /\ psize st' = psize st /\ maxoff st' = maxoff st.
 Proof.
-  intros q os. induction os as [| o tl IH]; intros st rs st' HQ HI Hok E; simpl in E.
+  intros q ok os. induction os as [| o tl IH]; intros st rs st' HQ HI Hok E; simpl in E.
   - inversion E; subst. split; [constructor | auto].
-  - destruct Hok as [Ho Ht]. destruct (step q st o) as [r st1] eqn:Es. simpl in Ht.
-    destruct (run q st1 tl) as [rs1 st2] eqn:Er. inversion E; subst rs st'. clear E.
-    destruct (step_refines q st o r st1 HQ HI Ho Es) as [A [B [C D]]].
+  - destruct Hok as [Ho Ht]. destruct (step q ok st o) as [r st1] eqn:Es. simpl in Ht.
+    destruct (run q ok st1 tl) as [rs1 st2] eqn:Er. inversion E; subst rs st'. clear E.
+    destruct (step_refines q ok st o r st1 HQ HI Ho Es) as [A [B [C D]]].
     destruct (IH st1 rs1 st2 HQ B Ht Er) as [A' [B' [C' D']]].
     split; [| split; [exact B' | split; congruence]].
     econstructor; [exact A |]. rewrite <- C. exact A'.
 Qed.
 
 (* the size rules, read off the invariant: page aligned, below maxoff, equal to the length of the file on disk *)
-Lemma size_inv : forall q os st rs st', FixedQ q -> Inv st -> RunOk q st os -> run q st os = (rs, st') ->
+Lemma size_inv : forall q ok os st rs st', FixedQ q -> Inv st -> RunOk q ok st os -> run q ok st os = (rs, st') ->
   fsize st' mod psize st' = 0 /\ (maxoff st' = 0 \/ fsize st' <= maxoff st') /\ zlen (file st') = fsize st' /\
   maxoff st' = maxoff st.
 Proof.
-  intros q os st rs st' HQ HI Hok E. destruct (run_refines q os st rs st' HQ HI Hok E) as [_ [I' [_ M]]].
+  intros q ok os st rs st' HQ HI Hok E. destruct (run_refines q ok os st rs st' HQ HI Hok E) as [_ [I' [_ M]]].
   pose proof (inv_fs st' I') as [_ H2]. pose proof (inv_mo st' I') as [_ [_ H3]]. pose proof (inv_file st' I'). auto.
 Qed.
 
 (* ... and it is what the next open sees: opening the file left behind (no initial size) yields the same size and content *)
-Lemma reopen_same : forall st mo p, Inv st -> psize st = EXF_PSIZE ->
-  exists st2, exfile_open (file st) 0 mo p = (0, st2) /\ fsize st2 = fsize st /\ file st2 = file st.
+Lemma reopen_same : forall ok st mo p, Inv st -> psize st = EXF_PSIZE ->
+  exists st2, exfile_open ok (file st) 0 mo p = (0, st2) /\ fsize st2 = fsize st /\ file st2 = file st.
 Proof.
-  intros st mo p HI Hps. pose proof (inv_fs st HI) as [Hf1 Hf2]. pose proof (inv_file st HI) as Hfl. pose proof LIM_val.
+  intros ok st mo p HI Hps. pose proof (inv_fs st HI) as [Hf1 Hf2]. pose proof (inv_file st HI) as Hfl. pose proof LIM_val.
   pose proof (inv_ps st HI) as HP. rewrite Hps in *.
   unfold exfile_open. rewrite Hfl. destruct (Z.ltb_spec (fsize st) 0); [lia |].
   rewrite aligned_ps by (auto; lia). rewrite Hf2. simpl. eexists. split; [reflexivity |]. simpl. auto.
@@ -1211,11 +1253,11 @@ Lemma mkInv' : forall f fs mo ps ss p, PsOk ps -> 0 <= fs <= LIM -> fs mod ps = 
 Proof. intros. constructor; simpl; auto. Qed.
 
 (* the state right after iwfs_exfile_open satisfies the invariant *)
-Lemma open_inv : forall f initial mo p rc st, PsOk EXF_PSIZE -> zlen f <= LIM -> 0 <= initial <= LIM -> 0 <= mo <= LIM ->
+Lemma open_inv : forall ok f initial mo p rc st, PsOk EXF_PSIZE -> zlen f <= LIM -> 0 <= initial <= LIM -> 0 <= mo <= LIM ->
   (mo < EXF_PSIZE \/ zlen f <= mo / EXF_PSIZE * EXF_PSIZE) -> pol_ok p ->
-  exfile_open f initial mo p = (rc, st) -> rc = 0 -> Inv st /\ psize st = EXF_PSIZE.
+  exfile_open ok f initial mo p = (rc, st) -> rc = 0 -> Inv st /\ psize st = EXF_PSIZE.
 Proof.
-  intros f initial mo p rc st HP Hfl Hini Hmo Hmo2 Hp E Hrc. pose proof (PsOk_pos _ HP) as Hps. pose proof LIM_val as EL.
+  intros ok f initial mo p rc st HP Hfl Hini Hmo Hmo2 Hp E Hrc. pose proof (PsOk_pos _ HP) as Hps. pose proof LIM_val as EL.
   pose proof (zlen_nonneg f) as Hfn.
   unfold exfile_open in E.
   set (m := if mo >=? EXF_PSIZE then IW_ROUNDOWN mo EXF_PSIZE else 0) in E.
@@ -1230,7 +1272,7 @@ Proof.
   destruct Hm as [Hm1 [Hm2 Hm3]].
   set (st0 := mkExf f (zlen f) m EXF_PSIZE [] p) in E.
   (* st0 satisfies everything but alignment of the size; truncate_lw only needs the other parts *)
-  assert (Htr : forall size rc1 st1, 0 <= size <= LIM -> zlen f <= size -> truncate_lw st0 size = (rc1, st1) -> rc1 = 0 -> Inv st1 /\ psize st1 = EXF_PSIZE).
+  assert (Htr : forall size rc1 st1, 0 <= size <= LIM -> zlen f <= size -> truncate_lw ok st0 size = (rc1, st1) -> rc1 = 0 -> Inv st1 /\ psize st1 = EXF_PSIZE).
   { intros size rc1 st1 Hs Hge Et Hrc1. subst rc1. unfold truncate_lw in Et. simpl in Et.
     rewrite uw_small in Et by lia. rewrite roundup_ps in Et by (auto; lia).
     set (n := rup size EXF_PSIZE) in Et.
@@ -1241,7 +1283,8 @@ Proof.
     - inversion Et; subst st1. split; [| reflexivity].
       apply mkInv'; [exact HP | lia | rewrite Een; exact Hnm | reflexivity | lia | exact Hm2 | destruct Hm3; [left; assumption | right; lia] | exact Hp | constructor].
     - destruct (Z.ltb_spec (zlen f) n); [| lia].
-      destruct (negb (m =? 0) && (n >? m)) eqn:Emo; [discriminate Et |]. inversion Et; subst st1.
+      destruct (negb (m =? 0) && (n >? m)) eqn:Emo; [discriminate Et |].
+      destruct (ok n); simpl in Et; [| discriminate Et]. inversion Et; subst st1.
       split; [| reflexivity].
       apply mkInv'; [exact HP | lia | exact Hnm | apply zlen_ftrunc; lia | lia | exact Hm2 | | exact Hp | constructor].
       destruct (Z.eqb_spec m 0); [left; assumption |]. simpl in Emo.
@@ -1256,10 +1299,20 @@ Qed.
 
 (* ---------------------------------------------------------------------------------------------- *)
 (* 12. the flat array itself: last write wins, everything else keeps its bytes, new space is zero *)
-Lemma spec_ensure_shape : forall ps a sz rc a1, 0 < ps -> 0 <= sz -> spec_ensure ps a sz = (rc, a1) ->
+Lemma spec_grow_shape : forall ok a n p rc a1, 0 <= n -> spec_grow ok a n p = (rc, a1) ->
+  exists m, a_bytes a1 = ftrunc (a_bytes a) m /\ zlen (a_bytes a1) = m /\ (rc = 0 -> m = n).
+Proof.
+  intros ok a n p rc a1 Hn E. unfold spec_grow in E.
+  destruct ((zlen (a_bytes a) <? n) && negb (ok n)).
+  - inversion E; subst. simpl. exists (zlen (a_bytes a)). rewrite ftrunc_id. split; [reflexivity |]. split; [reflexivity |].
+    intros Hrc; discriminate Hrc.
+  - inversion E; subst. simpl. exists n. split; [reflexivity |]. split; [apply zlen_ftrunc; lia | intros; reflexivity].
+Qed.
+
+Lemma spec_ensure_shape : forall ps ok a sz rc a1, 0 < ps -> 0 <= sz -> spec_ensure ps ok a sz = (rc, a1) ->
   exists m, a_bytes a1 = ftrunc (a_bytes a) m /\ zlen (a_bytes a1) = m /\ (rc = 0 -> sz <= m).
 Proof.
-  intros ps a sz rc a1 Hps Hsz E. unfold spec_ensure in E.
+  intros ps ok a sz rc a1 Hps Hsz E. unfold spec_ensure in E.
   destruct (Z.geb_spec (zlen (a_bytes a)) sz) as [Hge | Hlt].
   - inversion E; subst. exists (zlen (a_bytes a1)). rewrite ftrunc_id. split; [reflexivity |]. split; [reflexivity | intros; lia].
   - pose proof (spec_policy_ge ps (a_pol a) sz (zlen (a_bytes a)) Hps) as [Hn _].
@@ -1268,31 +1321,33 @@ Proof.
     + destruct (Z.ltb_spec (a_maxoff a) sz).
       * inversion E; subst. simpl. exists (zlen (a_bytes a)). rewrite ftrunc_id. split; [reflexivity |]. split; [reflexivity |].
         intros Hrc; discriminate Hrc.
-      * inversion E; subst. simpl. exists (a_maxoff a). split; [reflexivity |]. split; [apply zlen_ftrunc; lia | intros; lia].
-    + inversion E; subst. simpl. exists n. split; [reflexivity |]. split; [apply zlen_ftrunc; lia | intros; lia].
+      * destruct (spec_grow_shape ok a (a_maxoff a) p rc a1 ltac:(lia) E) as [m [A [B C]]].
+        exists m. split; [exact A |]. split; [exact B |]. intros Hrc. specialize (C Hrc). lia.
+    + destruct (spec_grow_shape ok a n p rc a1 ltac:(lia) E) as [m [A [B C]]].
+      exists m. split; [exact A |]. split; [exact B |]. intros Hrc. specialize (C Hrc). lia.
 Qed.
 
-Lemma flat_read_after_write : forall ps a off d sp a', 0 < ps -> 0 <= off ->
-  spec_write ps a off d = (0, sp, a') -> spec_read a' off (zlen d) = d /\ sp = zlen d.
+Lemma flat_read_after_write : forall ps ok a off d sp a', 0 < ps -> 0 <= off ->
+  spec_write ps ok a off d = (0, sp, a') -> spec_read a' off (zlen d) = d /\ sp = zlen d.
 Proof.
-  intros ps a off d sp a' Hps Hoff E. pose proof (zlen_nonneg d). unfold spec_write in E.
+  intros ps ok a off d sp a' Hps Hoff E. pose proof (zlen_nonneg d). unfold spec_write in E.
   destruct (negb (a_maxoff a =? 0) && (off + zlen d >? a_maxoff a)); [discriminate E |].
-  destruct (spec_ensure ps a (off + zlen d)) as [rc1 a1] eqn:Ee.
-  destruct (spec_ensure_shape ps a (off + zlen d) rc1 a1 Hps ltac:(lia) Ee) as [m [_ [Hm Hge]]].
+  destruct (spec_ensure ps ok a (off + zlen d)) as [rc1 a1] eqn:Ee.
+  destruct (spec_ensure_shape ps ok a (off + zlen d) rc1 a1 Hps ltac:(lia) Ee) as [m [_ [Hm Hge]]].
   destruct (Z.eqb_spec rc1 0) as [Hz | Hnz]; simpl in E; [| inversion E; congruence].
   inversion E; subst sp a'. unfold spec_read. simpl. specialize (Hge Hz). split; [| reflexivity].
   apply pread_splice_same. lia.
 Qed.
 
 (* outside the written range the bytes are the old ones, extended by zeros where the file grew *)
-Lemma flat_write_frame : forall ps a off d sp a' b n, 0 < ps -> 0 <= off -> 0 <= b -> 0 <= n ->
-  spec_write ps a off d = (0, sp, a') -> (b + n <= off \/ off + zlen d <= b) ->
+Lemma flat_write_frame : forall ps ok a off d sp a' b n, 0 < ps -> 0 <= off -> 0 <= b -> 0 <= n ->
+  spec_write ps ok a off d = (0, sp, a') -> (b + n <= off \/ off + zlen d <= b) ->
   spec_read a' b n = pread (ftrunc (a_bytes a) (zlen (a_bytes a'))) b n.
 Proof.
-  intros ps a off d sp a' b n Hps Hoff Hb Hn E Hout. pose proof (zlen_nonneg d). unfold spec_write in E.
+  intros ps ok a off d sp a' b n Hps Hoff Hb Hn E Hout. pose proof (zlen_nonneg d). unfold spec_write in E.
   destruct (negb (a_maxoff a =? 0) && (off + zlen d >? a_maxoff a)); [discriminate E |].
-  destruct (spec_ensure ps a (off + zlen d)) as [rc1 a1] eqn:Ee.
-  destruct (spec_ensure_shape ps a (off + zlen d) rc1 a1 Hps ltac:(lia) Ee) as [m [Hb1 [Hm Hge]]].
+  destruct (spec_ensure ps ok a (off + zlen d)) as [rc1 a1] eqn:Ee.
+  destruct (spec_ensure_shape ps ok a (off + zlen d) rc1 a1 Hps ltac:(lia) Ee) as [m [Hb1 [Hm Hge]]].
   destruct (Z.eqb_spec rc1 0) as [Hz | Hnz]; simpl in E; [| inversion E; congruence].
   inversion E; subst sp a'. unfold spec_read. simpl. specialize (Hge Hz).
   rewrite zlen_splice by lia. rewrite Hm. rewrite <- Hb1.
@@ -1312,4 +1367,147 @@ Proof.
   assert (Hsk : forall j m, skipn j (repeat 0 m) = repeat 0 (m - j)).
   { induction j as [| j IHj]; intros m; [rewrite Nat.sub_0_r; reflexivity |]. destruct m; [reflexivity |]. simpl. apply IHj. }
   rewrite Hsk. apply Hrep. lia.
+Qed.
+
+(* ---------------------------------------------------------------------------------------------- *)
+(* 13. a growth the operating system refuses.  No side condition on the arguments is needed here (they may
+   wrap): only the layout invariant, which makes the `truncfail` exit of _exfile_truncate_lw the identity.
+   (a) a call that answers the I/O error has changed nothing but, possibly, the context of the resize policy;
+   (b) whenever the reported size has grown, the operating system accepted exactly that size. *)
+Definition os_facts (ok : os_ok) (st : exf) (rc : Z) (st' : exf) : Prop :=
+  (rc = EXF_E_IO -> st' = set_pol st (pol st')) /\ (fsize st < fsize st' -> ok (fsize st') = true).
+
+Lemma set_pol_same : forall st, set_pol st (pol st) = st.
+Proof. intros st. destruct st; reflexivity. Qed.
+
+Lemma truncate_lw_os : forall ok st size rc st', SlotsInv (psize st) (fsize st) (slots st) ->
+  truncate_lw ok st size = (rc, st') -> os_facts ok st rc st'.
+Proof.
+  intros ok st size rc st' HS E. unfold truncate_lw in E. cbv zeta in E.
+  set (n := IW_ROUNDUP (uw 64 size) (psize st)) in E.
+  destruct (Z.eqb_spec (fsize st) n) as [Heq | Hne].
+  { inversion E; subst rc st'. split; [intros Hrc; discriminate Hrc | intros; lia]. }
+  destruct (Z.ltb_spec (fsize st) n) as [Hlt | Hge].
+  - destruct (negb (maxoff st =? 0) && (n >? maxoff st)).
+    { inversion E; subst rc st'. split; [intros Hrc; discriminate Hrc | intros; lia]. }
+    destruct (ok n) eqn:Eok; simpl in E.
+    + inversion E; subst rc st'. simpl. split; [intros Hrc; discriminate Hrc | intros _; exact Eok].
+    + rewrite truncfail_id in E by exact HS. inversion E; subst rc st'.
+      split; [intros _; symmetry; apply set_pol_same | intros; lia].
+  - inversion E; subst rc st'. split; [intros Hrc; discriminate Hrc | simpl; intros; lia].
+Qed.
+
+Lemma ensure_size_lw_os : forall q ok st sz rc st', SlotsInv (psize st) (fsize st) (slots st) ->
+  ensure_size_lw q ok st sz = (rc, st') -> os_facts ok st rc st'.
+Proof.
+  intros q ok st sz rc st' HS E. unfold ensure_size_lw in E.
+  destruct (fsize st >=? uw 64 sz).
+  { inversion E; subst rc st'. split; [intros Hrc; discriminate Hrc | intros; lia]. }
+  destruct (policy_call q (psize st) (pol st) sz (fsize st)) as [nsz pol'].
+  assert (Htr : forall n, truncate_lw ok (set_pol st pol') n = (rc, st') -> os_facts ok st rc st').
+  { intros n Et. destruct (truncate_lw_os ok (set_pol st pol') n rc st' HS Et) as [A B]. split; [| exact B].
+    intros Hrc. specialize (A Hrc). rewrite A. simpl. destruct st; reflexivity. }
+  destruct ((nsz <? sz) || negb (aligned nsz (psize st))).
+  { inversion E; subst rc st'. split; [intros Hrc; discriminate Hrc | simpl; intros; lia]. }
+  destruct (negb (maxoff st =? 0) && (uw 64 nsz >? maxoff st)).
+  - destruct (sw 64 (maxoff st) <? sz).
+    + inversion E; subst rc st'. split; [intros Hrc; discriminate Hrc | simpl; intros; lia].
+    + exact (Htr _ E).
+  - exact (Htr _ E).
+Qed.
+
+Lemma exfile_write_os : forall q ok st off data rc sp st', SlotsInv (psize st) (fsize st) (slots st) ->
+  exfile_write q ok st off data = (rc, sp, st') -> os_facts ok st rc st' /\ (rc = EXF_E_IO -> sp = 0).
+Proof.
+  intros q ok st off data rc sp st' HS E. unfold exfile_write in E. cbv zeta in E.
+  destruct ((off <? 0) || (sw 64 (off + zlen data) <? 0)).
+  { inversion E; subst rc sp st'. split; [split; [intros Hrc; discriminate Hrc | intros; lia] | reflexivity]. }
+  destruct (negb (maxoff st =? 0) && (uw 64 (off + zlen data) >? maxoff st)).
+  { inversion E; subst rc sp st'. split; [split; [intros Hrc; discriminate Hrc | intros; lia] | reflexivity]. }
+  assert (Hens : forall rc1 st1, (if sw 64 (off + zlen data) >? fsize st then ensure_size_lw q ok st (sw 64 (off + zlen data)) else (0, st)) = (rc1, st1) ->
+                 os_facts ok st rc1 st1).
+  { intros rc1 st1 E1. destruct (sw 64 (off + zlen data) >? fsize st).
+    - exact (ensure_size_lw_os q ok st _ rc1 st1 HS E1).
+    - inversion E1; subst rc1 st1. split; [intros Hrc; discriminate Hrc | intros; lia]. }
+  destruct (if sw 64 (off + zlen data) >? fsize st then ensure_size_lw q ok st (sw 64 (off + zlen data)) else (0, st)) as [rc1 st1] eqn:E1.
+  destruct (Hens rc1 st1 eq_refl) as [A B].
+  destruct (Z.eqb_spec rc1 0) as [Hz | Hnz]; simpl in E.
+  - destruct (write_pieces (psize st1) (split_all (slots st1) off (zlen data)) data (file st1) (slots st1)) as [[f' ss'] |].
+    + inversion E; subst rc sp st'. split; [split; [intros Hrc; discriminate Hrc | simpl; exact B] | intros Hrc; discriminate Hrc].
+    + inversion E; subst rc sp st'. split; [split; [intros Hrc; discriminate Hrc | exact B] | reflexivity].
+  - inversion E; subst rc sp st'. split; [split; [exact A | exact B] | reflexivity].
+Qed.
+
+Lemma exfile_copy_os : forall q ok st off siz noff rc st', SlotsInv (psize st) (fsize st) (slots st) ->
+  exfile_copy q ok st off siz noff = (rc, st') -> os_facts ok st rc st'.
+Proof.
+  intros q ok st off siz noff rc st' HS E. unfold exfile_copy in E.
+  assert (Hens : forall rc0 st0, (if q_copy_ensures q then ensure_size_lw q ok st (sw 64 (noff + siz)) else (0, st)) = (rc0, st0) ->
+                 os_facts ok st rc0 st0).
+  { intros rc0 st0 E0. destruct (q_copy_ensures q).
+    - exact (ensure_size_lw_os q ok st _ rc0 st0 HS E0).
+    - inversion E0; subst rc0 st0. split; [intros Hrc; discriminate Hrc | intros; lia]. }
+  destruct (if q_copy_ensures q then ensure_size_lw q ok st (sw 64 (noff + siz)) else (0, st)) as [rc0 st0] eqn:E0.
+  destruct (Hens rc0 st0 eq_refl) as [A B].
+  destruct (Z.eqb_spec rc0 0) as [Hz | Hnz]; simpl in E.
+  2:{ inversion E; subst rc st'. split; assumption. }
+  (* from here on the size is that of st0 and the answer is 0, the overlap refusal or a crash *)
+  assert (Hfile : forall rcf stf, (let '(rc, f') := file_copy (file st0) off siz noff in (rc, set_file st0 f')) = (rcf, stf) ->
+                  os_facts ok st rcf stf).
+  { intros rcf stf Ef. unfold file_copy in Ef.
+    destruct (negb (IW_RANGES_OVERLAP off (off + siz) noff (noff + siz) =? 0) && (noff >? off));
+      inversion Ef; subst rcf stf; (split; [intros Hrc; discriminate Hrc | simpl; exact B]). }
+  destruct (slots st0) as [| s tl]; [exact (Hfile rc st' E) |].
+  destruct ((0 <? s_len s) && (s_off s =? 0) && (s_len s >=? uw 64 (noff + siz))); [| exact (Hfile rc st' E)].
+  destruct (q_copy_src q && negb (s_len s >=? uw 64 (off + siz))); [exact (Hfile rc st' E) |].
+  destruct (win_read (psize st0) (file st0) s off siz) as [b |].
+  - destruct (win_write (psize st0) (file st0) s noff b) as [[s' f'] |];
+      inversion E; subst rc st'; (split; [intros Hrc; discriminate Hrc | simpl; exact B]).
+  - inversion E; subst rc st'. split; [intros Hrc; discriminate Hrc | exact B].
+Qed.
+
+Lemma step_os : forall q ok st o r st', Inv st -> step q ok st o = (r, st') ->
+  (o_rc r = EXF_E_IO -> st' = set_pol st (pol st') /\ o_sp r = 0) /\ (fsize st < fsize st' -> ok (fsize st') = true).
+Proof.
+  intros q ok st o r st' HI E. pose proof (inv_slots st HI) as HS. destruct o; simpl in E.
+  - destruct (exfile_write q ok st off d) as [[rc sp] st1] eqn:Ew. inversion E; subst r st'. simpl.
+    destruct (exfile_write_os q ok st off d rc sp st1 HS Ew) as [[A B] C]. split; [intros Hrc; split; auto | exact B].
+  - destruct (exfile_read st off n) as [[rc sp] b] eqn:Er. inversion E; subst r st'. simpl.
+    split; [| intros; lia]. intros Hrc. exfalso. unfold exfile_read in Er.
+    destruct ((off <? 0) || (sw 64 (off + n) <? 0)); [injection Er as H1 H2 H3; rewrite <- H1 in Hrc; discriminate Hrc |].
+    destruct (read_pieces _ _ _ _); injection Er as H1 H2 H3; rewrite <- H1 in Hrc; discriminate Hrc.
+  - destruct (exfile_copy q ok st off siz noff) as [rc st1] eqn:Ec. inversion E; subst r st'. simpl.
+    destruct (exfile_copy_os q ok st off siz noff rc st1 HS Ec) as [A B]. split; [intros Hrc; split; auto | exact B].
+  - destruct (truncate_lw ok st sz) as [rc st1] eqn:Et. inversion E; subst r st'. simpl.
+    destruct (truncate_lw_os ok st sz rc st1 HS Et) as [A B]. split; [intros Hrc; split; auto | exact B].
+  - destruct (ensure_size_lw q ok st sz) as [rc st1] eqn:Ee. inversion E; subst r st'. simpl.
+    destruct (ensure_size_lw_os q ok st sz rc st1 HS Ee) as [A B]. split; [intros Hrc; split; auto | exact B].
+  - destruct (add_mmap_lw st off maxlen flags) as [rc st1] eqn:Ea. inversion E; subst r st'. simpl.
+    unfold add_mmap_lw in Ea.
+    destruct (negb (aligned off (psize st))); [inversion Ea; subst; split; [intros Hrc; discriminate Hrc | intros; lia] |].
+    destruct (round_maxlen (psize st) off maxlen =? 0); [inversion Ea; subst; split; [intros Hrc; discriminate Hrc | intros; lia] |].
+    destruct (insert_slot _ _); inversion Ea; subst; (split; [intros Hrc; discriminate Hrc | simpl; intros; lia]).
+  - destruct (remove_mmap_lw st off) as [rc st1] eqn:Er. inversion E; subst r st'. simpl.
+    unfold remove_mmap_lw in Er.
+    destruct (remove_slot _ _); inversion Er; subst; (split; [intros Hrc; discriminate Hrc | simpl; intros; lia]).
+  - inversion E; subst r st'. simpl. split; [intros Hrc; discriminate Hrc | intros; lia].
+  - inversion E; subst r st'. simpl. split; [intros Hrc; discriminate Hrc | intros; lia].
+Qed.
+
+(* on the flat array: a refused size change answers the I/O error and keeps every byte; an accepted one answers 0 *)
+Lemma spec_grow_refused : forall ok a n p, zlen (a_bytes a) < n -> ok n = false ->
+  spec_grow ok a n p = (EXF_E_IO, mkFlat (a_bytes a) (a_maxoff a) p).
+Proof. intros ok a n p Hn Hok. rewrite spec_grow_grow by exact Hn. rewrite Hok. reflexivity. Qed.
+
+(* the model: a growth within the rules that the operating system refuses is answered with the I/O error and
+   the state - size, file, windows - is exactly the one before the call *)
+Lemma truncate_lw_refused : forall ok st size, Inv st -> 0 <= size <= LIM ->
+  fsize st < rup size (psize st) -> (maxoff st = 0 \/ rup size (psize st) <= maxoff st) ->
+  ok (rup size (psize st)) = false -> truncate_lw ok st size = (EXF_E_IO, st).
+Proof.
+  intros ok st size HI Hs Hlt Hmo Hok. rewrite truncate_lw_eq by assumption. cbv zeta.
+  destruct (Z.eqb_spec (fsize st) (rup size (psize st))); [lia |].
+  destruct (Z.ltb_spec (fsize st) (rup size (psize st))); [| lia]. rewrite Hok. simpl.
+  destruct (Z.eqb_spec (maxoff st) 0); simpl; [reflexivity |].
+  destruct (Z.gtb_spec (rup size (psize st)) (maxoff st)); [lia | reflexivity].
 Qed.
